@@ -9,10 +9,10 @@ PROP = "C09"
 
 def run(tier, only=None):
     rep = Report(PROP, tier, "CrossHair symbolic execution of Node edit operations from a symbolic pre-state (one inductive step per operation) and of the query methods; z3 decides each path")
-    ks = [0, 1, 2, 3, 4] if tier == "quick" else [0, 1, 2, 3, 4, 5, 6]
+    ks = [0, 1, 2, 3, 4] if tier == "quick" else [0, 1, 2, 3, 4, 5]
     qshapes = [5, 7] if tier == "quick" else [3, 5, 6, 7, 8, 9, 11]
     plens = [0, 2, 3] if tier == "quick" else [0, 1, 2, 3]
-    t = 240 if tier == "quick" else 900
+    t = 300 if tier == "quick" else 1800
     conds = []
     for k in ks:
         for fn in ("h_add_child", "h_remove_child", "h_replace_child", "h_remove_children") + (("h_shift",) if k else ()):
